@@ -244,7 +244,14 @@ func (c *Cursor) Fetch(name parser.Identifier, position int, number int) ([]valu
 	case parser.ABSOLUTE:
 		c.index = number
 	case parser.RELATIVE:
-		c.index = c.index + number
+		// c.index is within [-1, RecordLen]; keep the sum from wrapping around
+		if 0 < number && c.view.RecordLen()-c.index < number {
+			c.index = c.view.RecordLen()
+		} else if number < 0 && number < -1-c.index {
+			c.index = -1
+		} else {
+			c.index = c.index + number
+		}
 	case parser.FIRST:
 		c.index = 0
 	case parser.LAST:
